@@ -19,6 +19,7 @@ Definition tidy_op (c : config) (s : state) (o : op) : bool :=
   match o with
   | OExec _ _ keys => forallb (fun k => negb (key_down c s k)) keys
   | OSet _ _ _ _ | OSetEx _ _ _ _ | ODel _ => false
+  | OExecDie _ _ _ _ => false       (* leaves part of its invalidation to the cleaner *)
   | _ => true
   end.
 
